@@ -17,16 +17,32 @@ Tie to the code on every run:
                      `Model.Interleave.run .Local` and must reproduce every logged result.
 Schedules: ALL single-preemption schedules (thread X parked before its k-th library call for every k, the
 others run to completion, X resumes) for every ordered choice of X; 2-/3-preemption schedules enumerated at the
-switch points adjacent to shared-state accesses ("guided") and sampled uniformly; 3-thread schedules.
+switch points adjacent to shared-state accesses ("guided") and sampled uniformly; 3-thread schedules, among them
+"one thread held while ALL the others encode" (`held_while_all`): thread X is held before its k-th call — k at every
+call boundary INSIDE the dynamic extent of one of X's shared-state accesses (sched.py logs where each access begins
+and returns: the points between the steps of one logical access, check … act / insert … trim … re-read), and k
+anywhere (sampled) — the two other documents are encoded one after the other, in both orders (sampled: the first one
+only partly), X resumes; the other documents are encoded alone right before (history: X is the least recently used
+document of the process, which matters wherever the library keeps a bounded number of recent things).
 Document sets: mixed sets (different palettes and shapes) and SAME-FEATURE sets (`gen_feature_set`): both / all three
 documents use the same feature — page_by heading rows, subline_by headings, group_by, multi-section, figures, each with
 column headers, footnote / source (as table or not), title of their own formats — on one skeleton (same column names,
 grouping column at the same index, same first group value, same component texts) with every resolved setting drawn
 from pools that are disjoint between the documents, so that state shared between threads under a common key shows in
 the bytes.  For every same-feature pair the quick tier enumerates all single-preemption schedules that park document 0.
+SHARED-OBJECT sets (`gen_shared_set`, spec key "share"): the documents in flight were given the same component OBJECTS
+(column headers with their own col_rel_width, body, page, title, footnote, source, page header / footer — RTFDocument
+keeps them by reference) and differ in what such an object's rendering depends on (page geometry, palette, displayed
+columns, data); every document has ≥ 2 pages with repeated column headers.  The solo baseline of each document is taken
+in a fresh process in which the whole set is built the same way (same sharing) and that document alone is encoded.
+Quick tier: `shared-headers` (header objects shared, page geometry different) with document 0 parked at every library
+call boundary (exhaustive), the other role, `shared-most` (every component object shared but the page and one
+coloured component) and `shared-page` (the page object shared) at evenly spaced boundaries in both roles; thorough:
+every boundary in both roles for all of them, and three documents.
 Cell classes: every `contextvars.ContextVar` of the package is classified on every run (fresh interpreter): a mutable
 default object that an encode on another thread changes in place is a process-wide cell (`CtxMode.Global`), not the
-per-thread cell the theorems are about.
+per-thread cell the theorems are about.  Likewise every shared input object: if encodes of different documents leave
+different states on it (fields, private attributes, extras), it is a process-wide cell carrying per-document state.
 """
 from __future__ import annotations
 
@@ -50,7 +66,14 @@ RULE = ("schedules of 2 or 3 real threads encoding documents with different pale
         "and same-feature sets (both / all documents use page_by heading rows, subline_by, group_by, multi-section or "
         "figures on one skeleton — same column names, grouping column index, first group value, component texts — "
         "with formats, alignments, fonts, sizes, colours, borders, heights, figure sizes from pools disjoint between "
-        "the documents); non-trivial = the schedule is *discriminating*: replayed in the model with one process-wide "
+        "the documents), and sets whose documents were GIVEN THE SAME COMPONENT OBJECTS (column headers with own "
+        "col_rel_width, body, page, title, footnote, source, page header / footer — kept by reference by RTFDocument) "
+        "while differing in page geometry, palette, displayed columns, data and page count (≥ 2 pages each, column "
+        "headers repeated, document 0 ≥ 3 pages; solo baseline built with the same sharing in a fresh process); "
+        "three-document sets also under 'one thread held inside / next to one of its shared accesses (every call "
+        "boundary of the access's dynamic extent) or anywhere, while both other documents are encoded, in both "
+        "orders, after the history: the others encoded alone'; "
+        "non-trivial = the schedule is *discriminating*: replayed in the model with one process-wide "
         "colour cell (the pre-repair semantics) at least one thread would obtain a wrong colour index; distinct by "
         "(document set, schedule)")
 TRUSTED = [
@@ -70,7 +93,9 @@ ASSUME = [
     "contextvars: a new threading.Thread starts with an empty context (default None) — probed on every run; every "
     "ContextVar of the package is bound with .set() per encode and has an immutable default (a mutable default object "
     "mutated in place is one cell per process) — classified on every run",
-    "documents are not shared between threads (each thread encodes its own RTFDocument)",
+    "documents are not shared between threads (each thread encodes its own RTFDocument); the component objects they "
+    "were constructed from may be (sets shared-*), and are then expected to be read-only input of an encode — every "
+    "shared object's state is compared after encodes of different documents on every run",
 ]
 MANIFEST = dict(
     text="Lean theorems over an interleaving model of concurrent rtf_encode() calls (any number of threads, any "
@@ -88,7 +113,20 @@ MANIFEST = dict(
          "notInterfered on the logged lookups, and replay of the logged schedule in the model. A process-wide memo "
          "that is reset per use (e.g. a ContextVar whose mutable default object is mutated in place) is the Global "
          "cell of the model: exact sequentially (C15_global_sequential_reset), refuted under one preemption "
-         "(C15_shared_default_memo_interferes); every ContextVar of the package is classified on every run.",
+         "(C15_shared_default_memo_interferes); every ContextVar of the package is classified on every run. "
+         "Document sets that share component OBJECTS by identity (one RTFColumnHeader / RTFBody / RTFPage / RTFTitle / "
+         "RTFFootnote / RTFSource / page header / footer object given to both documents; different page geometry, "
+         "palette, displayed columns, data, page counts ≥ 2; sets shared-headers, shared-most, shared-page) are "
+         "scheduled too — one of them with document 0 parked at every library call boundary, the others at evenly "
+         "spaced boundaries in both roles (quick; thorough: every boundary, both roles) — against solo documents "
+         "built with the same sharing; what an encode stores on such an object is the Global cell as well "
+         "(objMemoProg: C15_object_memo_sequential, C15_shared_object_memo_interferes, "
+         "C15_private_object_memo_exact), and the state of every shared object after encodes of different documents is "
+         "compared on every run. Three-thread schedules include 'one thread held at every call boundary inside the "
+         "dynamic extent of each of its shared accesses while BOTH other documents are encoded (both orders), after "
+         "the others were encoded alone' — the schedules a bounded, content-keyed cache on a process-wide service "
+         "needs (Model.InterleaveLru, Props/C15lru: atomic lookups always hit, two threads are safe under all 64 "
+         "interleavings, three threads with three palettes fail under one preemption).",
     note="PARTIAL with respect to the runtime: switch points are library call boundaries (≈2 300 per small "
          "encode); preemption inside one bytecode-level shared access, free-threaded CPython and races inside C "
          "extensions (polars, Pillow) are outside the model and the scheduler. The strategy registry is a shared "
@@ -463,10 +501,236 @@ def gen_feature_set(seed, k, feature, n=2, nc=2):
     return specs
 
 
+# ------------------------------------------------------------------ sets that share configuration OBJECTS
+#
+# The documents of the sets above are built from independent specs: every document gets component objects of its own.
+# Callers commonly hand ONE component object to several documents (a family of tables with the same column header, the
+# same page set-up, the same footnote).  RTFDocument keeps what it is given by reference (a body / column header with
+# explicit col_rel_width of full length, page, title, footnote, source, page header / footer), so whatever an encode
+# leaves ON such an object (a memo, a "current …" attribute) is one cell per process, reachable from every thread
+# that encodes a document holding the object (Model.Interleave: `CtxMode.Global`, `objMemoProg`).  The sets below put
+# such documents in flight together.  A document may carry
+#     "share": {component: index of an EARLIER document of the set whose object of that component it is given}
+# (component ∈ SHAREABLE; its own dict for that component is the owner's, kept for readers of the spec).  The documents
+# differ in what the rendering of a shared object depends on besides the object itself: page geometry (orientation →
+# col_width → every \cellx of a header / body / footnote table), the palette (the shared object uses the colour the
+# palettes have in common, which sits at a different position of each document's dense colour table), the displayed
+# columns (one document removes a page_by column the other does not have), the data and the number of pages (every
+# document has ≥ 2 pages with the column headers repeated; document 0 ≥ 3, so that what page 2 leaves is used again).
+
+SHAREABLE = ("headers", "body", "page", "title", "footnote", "source", "page_header", "page_footer")
+_COLOURED = tuple(c for c in SHAREABLE if c != "page")
+
+
+def gen_shared_set(seed, k, n=2, must=("headers",), never=(), p_share=0.35, small=True, p_present=None):
+    """n single-table documents; the components in `must` and a random choice of the others (none of `never`) are
+    shared by identity.  p_share = 1: everything present is shared except `never` and one coloured component, which
+    stays private so that the palettes differ.  p_present: probability of each optional component (default: by
+    component, lower for the small documents of the quick tier)"""
+    rng = sub_rng(seed, "c15shared", k)
+    pals = gen_palettes(rng, n, color_names())
+    sides = list(range(3))
+    rng.shuffle(sides)
+    nc = 2 if small else rng.randint(2, 3)
+    hn = 1 if small else rng.randint(1, 2)
+    present = ["headers", "body", "page"]
+    for c, pr in (("title", 0.8), ("footnote", 0.5), ("source", 0.3), ("page_header", 0.3), ("page_footer", 0.3)):
+        if c in must or rng.random() < (p_present if p_present is not None else pr * 0.6 if small else pr):
+            present.append(c)
+    share = set(must) | {c for c in present if c not in never and rng.random() < p_share}
+    private_coloured = [c for c in present if c in _COLOURED and c not in share]
+    if not private_coloured:                          # the palettes must differ: a coloured component stays private
+        cand = [c for c in present if c in _COLOURED and c not in must]
+        c = rng.choice([c for c in cand if c not in ("headers", "body")] or cand or ["title"])
+        if c not in present:
+            present.append(c)
+        share.discard(c)
+        private_coloured = [c]
+    # displayed columns: with a private body, the later documents may take a page_by column out of the table that
+    # document 0 does not have at all (the shared header row fits both)
+    feature = rng.choice(["plain", "plain", "groupby", "pageby"] + (["plain"] * 2 if small else []))
+    extra_pageby = "body" not in share and feature == "plain" and rng.random() < 0.5
+    x = pals[0]["common"]
+    shared_pal = dict(common=x, own=[x])
+    oside = sides[0]
+    names = [f"c{j}" for j in range(nc)]
+    ncols = nc + (1 if feature != "plain" else 0)
+    allnames = (["grp"] if feature != "plain" else []) + names
+    # ---- the shared objects' dicts (owner: document 0)
+    sh = {}
+    if "headers" in share:
+        sh["headers"] = []
+        for r in range(hn):
+            h = _styled(rng, oside, nc if feature != "groupby" else ncols, shared_pal, "header")
+            h["text"] = [f"H{r}{j}" for j in range(nc if feature != "groupby" else ncols)]
+            h["col_rel_width"] = [rng.choice([1, 1.5, 2]) for _ in h["text"]]
+            sh["headers"].append(h)
+    if "body" in share:
+        b = _styled(rng, oside, ncols, shared_pal)
+        b["col_rel_width"] = [rng.choice([1, 1.5, 2]) for _ in range(ncols)]
+        sh["body"] = b
+    for c in ("title", "page_header", "page_footer"):
+        if c in share:
+            sh[c] = _line(rng, oside, shared_pal, {"title": "Title", "page_header": "hdr", "page_footer": "ftr"}[c])
+    for c in ("footnote", "source"):
+        if c in share:
+            sh[c] = _line(rng, oside, shared_pal, "note {^a} x_1" if c == "footnote" else "src", table=rng.random() < 0.6)
+    orients = ["portrait", "landscape"]
+    rng.shuffle(orients)
+    rows_per_page = 1 if small else 2                 # small: the cost of a schedule family grows with the encode's length
+    specs = []
+    for i in range(n):
+        side, pal, tag = sides[i], pals[i], "ABC"[i]
+        own = pal["own"]
+        pb = extra_pageby and i > 0
+        cols = (["grp"] if pb else []) + allnames
+        nr = (3 if i == 0 else 2) if small else rng.randint(5, 6) if i == 0 else rng.randint(3, 4)
+        ngroups = 2
+        rows = []
+        for r in range(nr):
+            row = [f"{tag}{r}_{j}" if (r + j) % 3 else f"v{r}_{j}" for j in range(nc)]
+            if feature != "plain" or pb:
+                row.insert(0, "G0" if r < (nr + 1) // ngroups else f"{tag}G1")
+            rows.append(row)
+        spec = dict(kind="table", df=dict(cols=cols, rows=rows))
+        # body (explicit widths of full length: the document keeps the caller's object)
+        feat = dict(pageby_header=True)               # column headers repeated on every page
+        if feature == "groupby":
+            feat["group_by"] = ["grp"]
+        elif feature == "pageby" or pb:
+            feat.update(page_by=["grp"], new_page=False)
+        if "body" in share:
+            spec["body"] = json.loads(json.dumps(dict(sh["body"], **feat)))
+        else:
+            b = _styled(rng, side, len(cols), pal)
+            if rng.random() < 0.7:
+                b["col_rel_width"] = [rng.choice([1, 1.5, 2]) for _ in cols]
+            b.update(feat)
+            spec["body"] = b
+        # column headers: explicit widths of their own, so that the document keeps the caller's objects
+        hcells = nc if feature != "groupby" else ncols
+        if "headers" in share:
+            spec["headers"] = json.loads(json.dumps(sh["headers"]))
+        else:
+            hs = []
+            for r in range(hn):
+                h = _styled(rng, side, hcells, pal, "header")
+                h["text"] = [f"H{r}{j}" for j in range(hcells)]
+                if rng.random() < 0.7:
+                    h["col_rel_width"] = [rng.choice([1, 1.5, 2]) for _ in range(hcells)]
+                hs.append(h)
+            spec["headers"] = hs
+        for c in ("title", "page_header", "page_footer", "footnote", "source"):
+            if c not in present:
+                continue
+            if c in share:
+                spec[c] = json.loads(json.dumps(sh[c]))
+            elif c in ("footnote", "source"):
+                spec[c] = _line(rng, side, pal, "note {^a} x_1" if c == "footnote" else "src", table=rng.random() < 0.6)
+            else:
+                spec[c] = _line(rng, side, pal, {"title": "Title", "page_header": "hdr", "page_footer": "ftr"}[c])
+        # the private coloured components carry the document's own colours (own[0] sorts below the common colour in
+        # the documents that have such a colour: the common colour's table position differs between the documents)
+        c0 = private_coloured[0]
+        if c0 in ("body", "headers"):
+            for d in ([spec["body"]] if c0 == "body" else spec["headers"]):
+                w = len(d["text_color"][0])
+                d["text_background_color"] = [[own[0]] + [rng.choice(own + [""]) for _ in range(w - 1)]]
+        else:
+            spec[c0]["text_color"] = own[0]
+        # page: the rows the paginator reserves on every page (header rows with text, footnote, source) + data rows
+        over = hn + ("footnote" in present) + ("source" in present)
+        if "page" in share and i > 0:
+            spec["page"] = json.loads(json.dumps(specs[0]["page"]))
+        else:
+            spec["page"] = dict(orientation=orients[i % 2], nrow=over + rows_per_page)
+            if i >= 2 or rng.random() < 0.3:
+                spec["page"]["col_width"] = rng.choice([4.5, 5.0, 5.5])
+            if rng.random() < 0.2:
+                spec["page"]["page_title"] = "first"          # default "all": repeated on every page
+            if "footnote" in present and rng.random() < 0.5:
+                spec["page"]["page_footnote"] = "all"         # default "last"
+            if "source" in present and rng.random() < 0.5:
+                spec["page"]["page_source"] = "all"
+        if i > 0:
+            spec["share"] = {c: 0 for c in SHAREABLE if c in share}
+        specs.append(spec)
+    return specs
+
+
+def share_labels(specs):
+    """input-distribution labels of a set that shares objects"""
+    out = []
+    sh = sorted({c for s in specs for c in (s.get("share") or {})})
+    for c in sh:
+        out.append(f"shared-object:{c}")
+    out.append("shared-object-count:" + str(len(sh)))
+    pages = [json.dumps(s.get("page"), sort_keys=True) for s in specs]
+    out.append("shared-set-differs:page-geometry" if len(set(pages)) > 1 else "shared-set-differs:same-page-object")
+    if len({len(s["df"]["cols"]) for s in specs}) > 1:
+        out.append("shared-set-differs:displayed-columns-by-page_by")
+    for f in ("group_by", "page_by"):
+        if any(f in (s.get("body") or {}) for s in specs):
+            out.append(f"shared-set-feature:{f}")
+    return out
+
+
 # ------------------------------------------------------------------ running real code
 
-def _build_all(specs, wd):
+_COMPONENT_ARGS = dict(body=("rtf_body", "RTFBody"), page=("rtf_page", "RTFPage"), title=("rtf_title", "RTFTitle"),
+                       subline=("rtf_subline", "RTFSubline"), page_header=("rtf_page_header", "RTFPageHeader"),
+                       page_footer=("rtf_page_footer", "RTFPageFooter"), footnote=("rtf_footnote", "RTFFootnote"),
+                       source=("rtf_source", "RTFSource"))
+
+
+def _build_sharing(spec, reuse):
+    """a kind="table" document through the public constructors, with the objects in `reuse` (component → object built
+    for an earlier document) handed over in place of objects of its own → (document, component → the caller's object)"""
+    import rtflite as rtf
+
+    if spec.get("kind", "table") != "table" or spec.get("spelling"):
+        raise ValueError("object sharing is implemented for plain kind='table' specs")
+    kw = dict(df=docgen.make_frame(spec["df"]))
+    mine = {}
+    for key, (arg, cls) in _COMPONENT_ARGS.items():
+        if key in reuse:
+            mine[key] = reuse[key]
+        elif spec.get(key) is not None:
+            mine[key] = getattr(rtf, cls)(**docgen._kw(spec[key]))
+        else:
+            continue
+        kw[arg] = mine[key]
+    h = spec.get("headers", "default")
+    if "headers" in reuse:
+        mine["headers"] = reuse["headers"]
+    elif h != "default":
+        mine["headers"] = [None if x is None else rtf.RTFColumnHeader(**docgen._kw(x)) for x in h]
+    if "headers" in mine:
+        kw["rtf_column_header"] = list(mine["headers"])      # the header OBJECTS are shared, not the list
+    return rtf.RTFDocument(**kw), mine
+
+
+def shares_objects(specs) -> bool:
+    return any(s.get("share") for s in specs)
+
+
+def _build_all(specs, wd, objects=None):
+    """the documents of a set, in order; a document with "share" is given the very objects built for the earlier
+    document it names.  `objects` (a list) receives, per document, component → the caller's object (sharing sets)"""
     docs = []
+    if shares_objects(specs):
+        objs = []
+        for i, s in enumerate(specs):
+            sh = s.get("share") or {}
+            for c, j in sh.items():
+                if c not in SHAREABLE or not (0 <= j < i) or c not in objs[j]:
+                    raise ValueError(f"document {i}: cannot share {c!r} of document {j}")
+            doc, mine = _build_sharing(s, {c: objs[j][c] for c, j in sh.items()})
+            objs.append(mine)
+            docs.append(doc)
+        if objects is not None:
+            objects.extend(objs)
+        return docs
     for i, s in enumerate(specs):
         d = os.path.join(wd, f"t{i}")
         os.makedirs(d, exist_ok=True)
@@ -474,8 +738,40 @@ def _build_all(specs, wd):
     return docs
 
 
-def solo_fresh(spec) -> dict:
-    """encode alone in a fresh interpreter (own hash seed, no history) → dict(status, rtf|msg)"""
+def _held(doc):
+    """component → the objects the constructed document holds"""
+    out = {}
+    for key, (arg, _cls) in _COMPONENT_ARGS.items():
+        v = getattr(doc, arg, None)
+        if v is not None:
+            out[key] = v if isinstance(v, list) else [v]
+    h = getattr(doc, "rtf_column_header", None)
+    if h:
+        out["headers"] = [x for sec in h for x in (sec if isinstance(sec, list) else [sec]) if x is not None]
+    return out
+
+
+def held_by_identity(docs, objects):
+    """per shared component: do all the documents that were given the object really hold it (the constructor keeps
+    what it is given, it makes no copy)?  → {component: bool}"""
+    out = {}
+    for i, mine in enumerate(objects):
+        held = _held(docs[i])
+        for c, o in mine.items():
+            if not any(o is m.get(c) for j, m in enumerate(objects) if j != i):
+                continue
+            mineobjs = [x for x in (o if isinstance(o, list) else [o]) if x is not None]
+            ok = all(any(x is y for y in held.get(c, [])) for x in mineobjs)
+            out[c] = out.get(c, True) and ok
+    return out
+
+
+def solo_fresh(spec, specs=None, i=None) -> dict:
+    """encode alone in a fresh interpreter (own hash seed, no history) → dict(status, rtf|msg).  A document of a set
+    that shares objects (`specs`, `i`) is built the way it is built for the concurrent run — the whole set, in order,
+    with the same sharing — and then document `i` alone is encoded"""
+    if specs is not None and shares_objects(specs):
+        spec = dict(specs=specs, i=i)
     env = dict(os.environ)
     env["PYTHONPATH"] = os.pathsep.join([str(common.VERIF)] + ([env["PYTHONPATH"]] if env.get("PYTHONPATH") else []))
     p = subprocess.run([sys.executable, "-m", "harness.props.c15", "--solo"], input=json.dumps(spec).encode(),
@@ -496,12 +792,67 @@ def cell_classes(specs) -> list:
     return json.loads(p.stdout.decode())
 
 
-def _cell_classes(specs):
+def _obj_state(o):
+    """everything an object of the library's component classes carries: declared fields, private attributes, extras
+    (recursively through nested models and containers), as a comparable plain structure"""
+    import pydantic
+
+    def conv(v, depth=0):
+        if depth > 6:
+            return repr(v)[:200]
+        if isinstance(v, pydantic.BaseModel):
+            return dict(cls=type(v).__name__,
+                        fields=conv(dict(getattr(v, "__dict__", None) or {}), depth + 1),
+                        private=conv(dict(getattr(v, "__pydantic_private__", None) or {}), depth + 1),
+                        extra=conv(dict(getattr(v, "__pydantic_extra__", None) or {}), depth + 1))
+        if isinstance(v, dict):
+            return {repr(k): conv(x, depth + 1) for k, x in v.items()}
+        if isinstance(v, (list, tuple)):
+            return [type(v).__name__] + [conv(x, depth + 1) for x in v]
+        return repr(v)[:2000]
+    return conv(o)
+
+
+def _state_diff(a, b):
+    """where two object states differ → short text"""
+    def leaf(x, y):
+        """the first place where two converted values differ"""
+        if isinstance(x, list) and isinstance(y, list):
+            if len(x) != len(y):
+                return f"{len(x) - 1} vs {len(y) - 1} elements"
+            for k, (u, v) in enumerate(zip(x, y)):
+                if u != v:
+                    return f"element {k - 1}: " + leaf(u, v)
+        if isinstance(x, dict) and isinstance(y, dict):
+            for k in sorted(set(x) | set(y)):
+                if x.get(k) != y.get(k):
+                    return f"{k}: " + leaf(x.get(k), y.get(k))
+        return f"{str(x)[:80]} vs {str(y)[:80]}"
+
+    out = []
+    for part in ("fields", "private", "extra"):
+        ka, kb = a.get(part, {}), b.get(part, {})
+        for k in sorted(set(ka) | set(kb)):
+            if ka.get(k) != kb.get(k):
+                out.append(f"{'field' if part == 'fields' else part + ' attribute'} {k.strip(chr(39))}: "
+                           + leaf(ka.get(k), kb.get(k)))
+    return "; ".join(out)[:500]
+
+
+def _cell_classes(groups):
     """Classify every `contextvars.ContextVar` of the rtflite package as a per-thread or a process-wide cell
-    (Model.Interleave: `CtxMode.Local` / `CtxMode.Global`), by what happens to it while `specs` are encoded on another
-    thread.  A variable is a per-thread cell only through `.set()`; its DEFAULT object is handed to every thread, so
-    a mutable default that an encode changes in place is one cell per process.  Must run before the process has
-    encoded anything.  → list of dict(var, where, default, mutable_default, mutated_by_encode, leaked_binding)"""
+    (Model.Interleave: `CtxMode.Local` / `CtxMode.Global`), by what happens to it while the documents are encoded on
+    another thread.  A variable is a per-thread cell only through `.set()`; its DEFAULT object is handed to every
+    thread, so a mutable default that an encode changes in place is one cell per process.  Must run before the process
+    has encoded anything.  → list of dict(var, where, default, mutable_default, mutated_by_encode, leaked_binding).
+    `groups`: document sets (lists of specs; one flat list of specs = one set).
+    INPUT OBJECTS: a component object that several documents of a set were given (spec key "share") is reachable from
+    every thread that encodes one of them.  Its complete state (fields, private attributes, extras) is read after every
+    single encode: an object on which encodes of DIFFERENT documents leave DIFFERENT states carries per-document state
+    in a process-wide cell (entries of kind "input-object", `mutated_by_encode` = that verdict; `written` = some encode
+    changed it at all)."""
+    if groups and isinstance(groups[0], dict):
+        groups = [groups]
     import contextvars
     import copy
     import threading
@@ -547,7 +898,26 @@ def _cell_classes(specs):
                 snap[key] = (True, None)
 
     with tempfile.TemporaryDirectory(prefix="rtfv_c15c_") as wd, contextlib.redirect_stdout(io.StringIO()):
-        docs = _build_all(specs, wd)
+        docs, tracked = [], []           # tracked: dict(name, where, obj, holders = indices into docs, states)
+        for g, specs in enumerate(groups):
+            gd = os.path.join(wd, f"g{g}")
+            os.makedirs(gd, exist_ok=True)
+            objects = []
+            ds = _build_all(specs, gd, objects)
+            base = len(docs)
+            docs += ds
+            seen = set()
+            for i, mine in enumerate(objects):
+                for c, o in mine.items():
+                    holders = [base + j for j, m in enumerate(objects) if m.get(c) is o]
+                    if len(holders) < 2 or id(o) in seen:
+                        continue
+                    seen.add(id(o))
+                    for k, x in enumerate(o if isinstance(o, list) else [o]):
+                        if x is not None:
+                            tracked.append(dict(name=type(x).__name__, where=f"set {g}: {c}[{k}] given to documents "
+                                                f"{[h - base for h in holders]}", obj=x, holders=holders, group=g,
+                                                component=c, state0=_obj_state(x), states=[]))
         snapshot(list(scan()))
 
         def encode_one(d):
@@ -558,8 +928,11 @@ def _cell_classes(specs):
 
         late = []
         changed, leaked = {}, set()
-        for d in docs:                               # after every single encode: what does a NEW thread see?
+        for di, d in enumerate(docs):                # after every single encode: what does a NEW thread see?
             in_thread(encode_one, d)
+            for tr in tracked:
+                if di in tr["holders"]:
+                    tr["states"].append(_obj_state(tr["obj"]))
             new = list(scan())                       # variables of modules imported during the encode
             late += new
             snapshot(new)
@@ -575,10 +948,20 @@ def _cell_classes(specs):
     for key, (name, var) in sorted(found.items(), key=lambda kv: kv[1][0]):
         mutable, copy0 = snap[key]
         mutable = bool(mutable and before[key] is not missing)
-        out.append(dict(var=var.name, where=name, default="<none>" if before[key] is missing else repr(copy0)[:80],
+        out.append(dict(kind="contextvar", var=var.name, where=name,
+                        default="<none>" if before[key] is missing else repr(copy0)[:80],
                         mutable_default=mutable, mutated_by_encode=bool(mutable and key in changed),
                         leaked_binding=key in leaked, seen_before_first_encode=key not in late,
                         left_behind=changed.get(key)))
+    for tr in tracked:
+        sts = tr["states"]
+        differ = next((b for b in sts[1:] if b != sts[0]), None) if sts else None
+        written = any(b != tr["state0"] for b in sts)
+        out.append(dict(kind="input-object", var=tr["name"], where=tr["where"], group=tr["group"],
+                        component=tr["component"], default="", mutable_default=True,
+                        mutated_by_encode=differ is not None, written=written, leaked_binding=False,
+                        left_behind=(_state_diff(sts[0], differ) if differ is not None else
+                                     _state_diff(tr["state0"], sts[0]) if written else None)))
     return out
 
 
@@ -587,15 +970,19 @@ def _baseline_worker(task):
     if task is None:
         return None
     if task[0] == "fresh":
-        return solo_fresh(task[1])
+        return solo_fresh(*task[1:])
     if task[0] == "cells":
         return cell_classes(task[1])
     from .. import sched
 
     specs = task[1]
     out = []
+    identity = {}
     with tempfile.TemporaryDirectory(prefix="rtfv_c15_") as wd, contextlib.redirect_stdout(io.StringIO()):
-        docs = _build_all(specs, wd)
+        objects = []
+        docs = _build_all(specs, wd, objects)
+        if objects:
+            identity = held_by_identity(docs, objects)
         for d in docs:
             r = sched.run_scheduled([d.rtf_encode], [[0, None]])
             plain = d.rtf_encode()
@@ -611,7 +998,7 @@ def _baseline_worker(task):
                             log=r["log"], observers_agree=len({json.dumps(v) for v in obs.values()}) == 1,
                             observers={k: v[0] for k, v in obs.items()}))
     out.append(dict(wrappers={k: (v if isinstance(v, (bool, str)) else True) for k, v in sched._PATCHED.items()
-                              if k != "lookup_code"}))
+                              if k != "lookup_code"}, identity=identity))
     return out
 
 
@@ -626,12 +1013,20 @@ def _diff_excerpt(a: str, b: str) -> str:
     return f"first difference at char {i}: solo …{a[max(0, i - 30):i + 30]!r}… vs concurrent …{b[max(0, i - 30):i + 30]!r}…"
 
 
-def run_one(specs, solo, segments, timeout=60.0) -> dict:
+def run_one(specs, solo, segments, timeout=60.0, history=None) -> dict:
+    """`history`: indices of documents of the set that are encoded alone (one after the other, on the calling thread)
+    right before the threads start: what the process did last is part of a schedule's input wherever the library keeps
+    a bounded number of recent things (the document whose thread is held is then the least recently used one)"""
     from .. import sched
 
     with tempfile.TemporaryDirectory(prefix="rtfv_c15_") as wd, contextlib.redirect_stdout(io.StringIO()):
         c0 = time.process_time()
         docs = _build_all(specs, wd)
+        for i in history or []:
+            try:
+                docs[i].rtf_encode()
+            except Exception:  # noqa: BLE001
+                pass
         t0 = time.time()
         try:
             r = sched.run_scheduled([d.rtf_encode for d in docs], segments, timeout, lazy_trace=True)
@@ -674,7 +1069,7 @@ def _warm_up(name, specs):
 def _sched_worker(task):
     base = _BASE[task["set"]]
     _warm_up(task["set"], base["specs"])
-    return run_one(base["specs"], base["solo"], task["segments"])
+    return run_one(base["specs"], base["solo"], task["segments"], history=task.get("history"))
 
 
 # ------------------------------------------------------------------ log → model events
@@ -745,6 +1140,51 @@ def guided_points(log, ncalls, offsets=(-2, -1, 0, 1)):
             if 0 <= c + d <= ncalls:
                 pts.add(c + d)
     return sorted(pts)
+
+
+def inside_points(log, ncalls):
+    """call budgets that park a thread INSIDE one of its shared-state accesses (or right before / after it): every
+    library call boundary within the dynamic extent of the access, logged by the wrappers as entry[5] = [calls entered
+    when the access began, … when it returned].  A logical access of several steps (look a key up, insert, trim,
+    read again) is atomic only if no other thread runs between its steps; these are the points between them"""
+    pts = set()
+    for e in log:
+        ext = e[5] if len(e) > 5 else None
+        if not ext or ext[0] is None or ext[1] is None:
+            continue
+        pts.update(range(max(0, ext[0] - 1), min(ncalls, ext[1] + 1) + 1))
+    return sorted(pts)
+
+
+def held_while_all(calls, inside, rng, n_inside, n_any):
+    """≥ 3 threads, one preemption of the victim: thread x is held before its (k+1)-th call while ALL the other
+    documents are encoded — one after the other, in both orders; sampled variants: the first of them only partly (it
+    finishes after the second) — then x resumes.  Every schedule carries the history "the others were encoded alone
+    just before" (x is the least recently used document of the process).
+      held-inside: every thread x, k at every call boundary inside / next to one of x's shared accesses, both orders
+                   (sampled down to n_inside)
+      held-any:    n_any schedules with x, k (any call boundary), the order and the variant drawn uniformly"""
+    n = len(calls)
+    out = []
+    for x in range(n):
+        others = [t for t in range(n) if t != x]
+        for k in inside[x]:
+            for order in (others, others[::-1]):
+                out.append(("held-inside", [[x, k]] + [[t, None] for t in order] + [[x, None]], list(order)))
+    if n_inside is not None and len(out) > n_inside:
+        out = rng.sample(out, n_inside)
+    for _ in range(n_any):
+        x = rng.randrange(n)
+        order = [t for t in range(n) if t != x]
+        rng.shuffle(order)
+        k = rng.randint(0, calls[x])
+        if rng.random() < 0.5 or calls[order[0]] < 3:
+            segs = [[x, k]] + [[t, None] for t in order] + [[x, None]]
+        else:
+            m = rng.randint(1, calls[order[0]] - 1)
+            segs = [[x, k], [order[0], m]] + [[t, None] for t in order[1:]] + [[order[0], None], [x, None]]
+        out.append(("held-any", segs, list(order)))
+    return out
 
 
 def single_preemption(n, calls):
@@ -985,18 +1425,35 @@ def prepare_sets(res, tier):
     plan += [(f"same-{f}", [f + "*", f + "*"]) for f in FEATURES]
     tf = frng.choice(FEATURES[:4])
     plan += [("same-triple", [tf + "*"] * 3)]
+    nfeat = len(plan)
+    # sets whose documents were given the same component OBJECTS (see gen_shared_set): one in which the column
+    # header objects (own col_rel_width) are shared for sure and the page geometry differs, one in which (nearly)
+    # every component object is shared except the page, one in which the page object is shared (same geometry; the
+    # documents differ in palette, data, page count, displayed columns); thorough: three documents as well
+    shared_plan = [("shared-headers", 2, dict(must=("headers",), never=("page",), p_share=0.3)),
+                   ("shared-most", 2, dict(must=(), never=("page",), p_share=1.0, p_present=0.75)),
+                   ("shared-page", 2, dict(must=("page",), p_share=0.35, p_present=0.5))]
+    if tier == "thorough":
+        shared_plan += [("shared-triple", 3, dict(must=(frng.choice(SHAREABLE),), p_share=0.4))]
+    plan += [(name, ["shared"] * n) for name, n, _ in shared_plan]
     sets = {}
     tasks = []
     for k, (name, kinds) in enumerate(plan):
         if k < nold:
             specs = gen_docset(res.seed, k, kinds)
-        else:
+        elif k < nfeat:
             specs = gen_feature_set(res.seed, k - nold, kinds[0].rstrip("*"), n=len(kinds),
                                     nc=2 if tier == "thorough" else 1)
+        else:
+            specs = gen_shared_set(res.seed, k - nfeat, n=len(kinds), small=True, **shared_plan[k - nfeat][2])
         sets[name] = dict(specs=specs, kinds=kinds)
-        tasks += [("fresh", s) for s in specs]
+        if shares_objects(specs):
+            tasks += [("fresh", s, specs, i) for i, s in enumerate(specs)]
+        else:
+            tasks += [("fresh", s) for s in specs]
         tasks.append(("traced", specs))
-    cell_specs = [sp for name, _ in plan[nold:] for sp in sets[name]["specs"]]
+    cell_specs = [[sp for name, _ in plan[nold:nfeat] for sp in sets[name]["specs"]]]
+    cell_specs += [sets[name]["specs"] for name, _ in plan[nfeat:]]
     ci = len(tasks)
     tasks.append(("cells", cell_specs))
     while len(tasks) < 4:
@@ -1013,6 +1470,7 @@ def prepare_sets(res, tier):
                 raise common.MachineryError(f"generated document {name}[{i}] does not encode alone: {f}")
         st["solo"] = [f["rtf"] for f in fresh]
         st["wrappers"] = traced[-1]["wrappers"]
+        st["identity"] = traced[-1].get("identity") or {}
         st["traced"] = traced[:-1]
         for i, t in enumerate(st["traced"]):
             if not t.get("observers_agree", True) and os.environ.get("VERIF_SCHED_SETTRACE") != "1":
@@ -1022,6 +1480,7 @@ def prepare_sets(res, tier):
         st["calls"] = [t["calls"] for t in st["traced"]]
         st["gp"] = [guided_points(t["log"], t["calls"]) for t in st["traced"]]
         st["gp_before"] = [guided_points(t["log"], t["calls"], (-1,)) for t in st["traced"]]
+        st["gp_inside"] = [inside_points(t["log"], t["calls"]) for t in st["traced"]]
         _BASE[name] = dict(specs=st["specs"], solo=st["solo"])
     return plan, sets
 
@@ -1070,6 +1529,12 @@ def judge_run(res, case, st, ob, drv, n2t_unused=None):
     return (not all(drv["model_global_ok"])), failed
 
 
+# three-document sets: how many of the schedules "x held inside one of its shared accesses, the two others encoded"
+# (all of them: None) and how many with x held anywhere are run
+HELD_INSIDE = dict(quick={None: 500, "triple": None}, thorough={None: None})
+HELD_ANY = dict(quick=100, thorough=2000)
+
+
 def run_sched(res, tier, n2t):
     t0 = time.time()
     plan, sets = prepare_sets(res, tier)
@@ -1085,17 +1550,32 @@ def run_sched(res, tier, n2t):
             res.notes.append(f"shared-access log unavailable ({w}); byte oracle only")
         for i, t in enumerate(st["traced"]):
             if not t["same_untraced"] or t["result"][0] != "ok" or t["result"][1] != st["solo"][i]:
-                res.fail(dict(level="sequential", set=name, thread=i, spec=st["specs"][i]),
+                res.fail(dict(level="sequential", set=name, thread=i, spec=st["specs"][i],
+                              **(dict(specs=st["specs"]) if shares_objects(st["specs"]) else {})),
                          "encoding a document after other documents in the same process differs from encoding it in "
                          "a fresh process (the no-preemption schedule)")
     # cell classes: every ContextVar of the package must be the per-thread kind of cell the model assumes
     cells = sets.pop("__cells__")
-    res.extra["contextvars"] = [{k: v for k, v in c.items() if k != "left_behind"} for c in cells["classes"]]
+    res.extra["contextvars"] = [{k: v for k, v in c.items() if k != "left_behind"} for c in cells["classes"]
+                                if c.get("kind", "contextvar") == "contextvar"]
+    res.extra["shared_input_objects"] = [{k: v for k, v in c.items() if k in ("var", "where", "written",
+                                                                               "mutated_by_encode", "left_behind")}
+                                         for c in cells["classes"] if c.get("kind") == "input-object"]
     for c in cells["classes"]:
         case = dict(level="cells", var=c["var"], where=c["where"], specs=cells["specs"])
         res.case(dict(level="cells", var=c["var"], where=c["where"]), None)
-        res.count("cells:contextvar-" + ("mutable-default" if c["mutable_default"] else "immutable-default"))
         res.corr_checked += 1
+        if c.get("kind") == "input-object":
+            res.count(f"cells:input-object-{c['component']}-" + ("per-document-state" if c["mutated_by_encode"] else
+                                                                 "written-same-state" if c["written"] else "read-only"))
+            if c["mutated_by_encode"]:
+                res.disagree(case, f"the {c['var']} object of {c['where']} is not read-only input: encodes of different "
+                                   f"documents that hold it leave different states on it ({c['left_behind']}) — what "
+                                   f"an encode stores on an object several documents were given is a process-wide "
+                                   f"cell (Model.Interleave CtxMode.Global, objMemoProg), for which C15 is refuted "
+                                   f"(C15_shared_object_memo_interferes)")
+            continue
+        res.count("cells:contextvar-" + ("mutable-default" if c["mutable_default"] else "immutable-default"))
         if c["mutated_by_encode"]:
             res.disagree(case, f"ContextVar {c['var']!r} ({c['where']}) is not a per-thread cell: its default object "
                                f"{c['default']} is mutable, every thread's .get() returns that one object, and an encode "
@@ -1104,6 +1584,23 @@ def run_sched(res, tier, n2t):
                                f"(C15_shared_default_memo_interferes)")
         elif c["leaked_binding"]:
             res.notes.append(f"ContextVar {c['var']!r}: a new thread reads a different default object after an encode")
+    import re as _re
+    for name, _ in plan:
+        st = sets[name]
+        if not shares_objects(st["specs"]):
+            continue
+        for lab in share_labels(st["specs"]):
+            res.count(f"{name}:{lab}")
+        for c, ok in sorted(st["identity"].items()):
+            res.count(f"{name}:" + ("held-by-identity:" if ok else "copied-by-constructor:") + c)
+        pages = [len(_re.findall(r"\\page(?![a-z])", r)) + 1 for r in st["solo"]]
+        res.extra.setdefault("shared_set_pages", {})[name] = pages
+        res.extra.setdefault("shared_set_objects", {})[name] = dict(
+            shared=sorted({c for sp in st["specs"] for c in (sp.get("share") or {})}), held_by_identity=st["identity"])
+        for i, n_pages in enumerate(pages):
+            res.count(f"{name}:pages={n_pages}")
+            if n_pages < 2:
+                res.notes.append(f"{name}[{i}] has one page only: nothing repeats in it")
     rng = sub_rng(res.seed, "c15sched")
     tasks = []
     fam_counts = {}
@@ -1112,7 +1609,7 @@ def run_sched(res, tier, n2t):
         calls, gp, n = st["calls"], st["gp"], len(kinds)
         fams = []
         if name == "pair-tables" or (tier == "thorough" and n == 2):
-            same = name.startswith("same-")
+            same = name.startswith(("same-", "shared-"))
             fams += single_preemption(n, calls)
             fams += guided2(calls, st["gp_before"], rng, 1500 if same else None, "before-access2")  # else exhaustive
             fams += guided2(calls, gp, rng, 300 if tier == "quick" else 3000 if name == "pair-tables" else
@@ -1128,15 +1625,36 @@ def run_sched(res, tier, n2t):
             # both documents go through the same feature code with different settings: document 0 is parked at every
             # library call boundary while the other one is encoded from start to finish
             fams += [f for f in single_preemption(n, calls) if f[1][0][0] == 0]
+        if name.startswith("shared-") and n == 2 and tier == "quick":
+            # documents that were given the same component objects.  shared-headers: document 0 (≥ 3 pages) is parked
+            # at EVERY library call boundary while the other one is encoded from start to finish; the other roles /
+            # the other set: parked at evenly spaced call boundaries (random phase), i.e. in every stretch of the encode
+            allsp = single_preemption(n, calls)
+            for x in range(n):
+                mine = [f for f in allsp if f[1][0][0] == x]
+                if name == "shared-headers" and x == 0:
+                    fams += mine
+                else:
+                    every = max(1, len(mine) // 250)
+                    off = rng.randrange(every)
+                    fams += [("single-spaced", f[1]) for f in mine[off::every]]
+            fams += sampled(calls, gp, rng, 40, 2)
+            fams += guided3(calls, gp, rng, 40)
         if n == 3:
             # single preemption of each of the three threads at the switch points next to its shared accesses
             fams += [f for f in single_preemption(n, calls) if f[1][0][1] in set(gp[f[1][0][0]])]
-            same3 = name.startswith("same-")
+            same3 = name.startswith(("same-", "shared-"))
             fams += three_thread(calls, gp, rng, (200 if same3 else 300) if tier == "quick" else 2000)
             fams += sampled(calls, gp, rng, (100 if same3 else 150) if tier == "quick" else 1000, 3)
-        for fam, segs in fams:
-            tasks.append(dict(set=name, family=fam, segments=segs))
-            fam_counts[f"{name}/{fam}"] = fam_counts.get(f"{name}/{fam}", 0) + 1
+            # one thread held (inside one of its shared accesses / anywhere) while BOTH other documents are encoded
+            fams += held_while_all(calls, st["gp_inside"], rng, HELD_INSIDE[tier].get(name, HELD_INSIDE[tier][None]),
+                                   HELD_ANY[tier])
+        for fam in fams:
+            task = dict(set=name, family=fam[0], segments=fam[1])
+            if len(fam) > 2:
+                task["history"] = fam[2]
+            tasks.append(task)
+            fam_counts[f"{name}/{fam[0]}"] = fam_counts.get(f"{name}/{fam[0]}", 0) + 1
     t1 = time.time()
     obs = common.pool_map(_sched_worker, tasks, chunksize=8)
     # A thread that ends in an exception of the ENVIRONMENT (OSError: Pillow's "cannot open resource" when the machine
@@ -1178,11 +1696,11 @@ def run_sched(res, tier, n2t):
     for k, (t, ob) in enumerate(zip(tasks, obs)):
         st = sets[t["set"]]
         case = dict(level="sched", set=t["set"], family=t["family"], kinds=st["kinds"], segments=t["segments"],
-                    specs=st["specs"])
+                    specs=st["specs"], **({"history": t["history"]} if t.get("history") else {}))
         disc, _ = judge_run(res, case, st, ob, drv.get(k))
         ndisc += bool(disc)
         res.case(dict(level="sched", set=t["set"], family=t["family"], segments=t["segments"],
-                      parks=ob.get("parks"), kinds=st["kinds"]),
+                      parks=ob.get("parks"), kinds=st["kinds"], **({"history": t["history"]} if t.get("history") else {})),
                  (t["set"], json.dumps(t["segments"])) if disc else None)
         res.count(f"{t['set']}/{t['family']}")
         res.corr_checked += 1
@@ -1191,6 +1709,7 @@ def run_sched(res, tier, n2t):
     res.extra["shared_events_per_thread"] = {name: [len(t["log"]) for t in sets[name]["traced"]] for name, _ in plan}
     res.extra["guided_points_per_thread"] = {name: [len(g) for g in sets[name]["gp"]] for name, _ in plan}
     res.extra["before_access_points_per_thread"] = {name: [len(g) for g in sets[name]["gp_before"]] for name, _ in plan}
+    res.extra["inside_access_points_per_thread"] = {name: [len(g) for g in sets[name]["gp_inside"]] for name, _ in plan}
     res.extra["schedules_by_family"] = fam_counts
     res.extra["schedules_total"] = len(tasks)
     res.extra["discriminating_schedules"] = ndisc
@@ -1204,7 +1723,13 @@ def run_sched(res, tier, n2t):
                                                 (tier == "thorough" and len(k) == 2 and not n.startswith("same-")))
                                     + ("; all single-preemption schedules that park document 0 (every library call "
                                        "boundary) of: " + ", ".join(n for n, k in plan if len(k) == 2 and
-                                                                    n != "pair-tables") if tier == "quick" else ""))
+                                                                    n not in ("pair-tables", "shared-most",
+                                                                              "shared-page"))
+                                       if tier == "quick" else "")
+                                    + "; three documents, one held at every call boundary inside / next to each of its "
+                                      "shared accesses while the two others are encoded, both orders, of: "
+                                    + ", ".join(n for n, k in plan if len(k) == 3 and
+                                                HELD_INSIDE[tier].get(n, HELD_INSIDE[tier][None]) is None))
     if ndisc == 0:
         res.notes.append("no discriminating schedule was produced — the run would not have noticed the old defect")
         res.disagree(dict(level="meta"), "schedule generator produced no schedule on which the process-wide-cell model "
@@ -1238,14 +1763,16 @@ def replay(payload) -> int:
     if level == "sched":
         specs = case["specs"]
         solo = []
-        for s in specs:
-            f = solo_fresh(s)
+        for i, s in enumerate(specs):
+            f = solo_fresh(s, specs, i)
             if f.get("status") != "ok":
                 print("document does not encode alone:", f)
                 return 2
             solo.append(f["rtf"])
         traced = _baseline_worker(("traced", specs))[:-1]
-        ob = run_one(specs, solo, case["segments"])
+        if case.get("history"):
+            print("history: documents", case["history"], "encoded alone (in this order) right before the threads start")
+        ob = run_one(specs, solo, case["segments"], history=case.get("history"))
         if ob["status"] != "ok":
             print("scheduler problem:", ob)
             return 2
@@ -1274,16 +1801,22 @@ def replay(payload) -> int:
             print("FAIL:", why[:600])
         bad = bool(tmp.failures)
     elif level == "cells":
-        cl = [c for c in cell_classes(case["specs"]) if c["var"] == case.get("var")]
+        cl = [c for c in cell_classes(case["specs"]) if c["var"] == case.get("var")
+              and (c.get("kind", "contextvar") == "contextvar" or c["where"] == case.get("where"))]
         for c in cl:
             print(c)
         bad = any(c["mutated_by_encode"] for c in cl)
-        print("the variable is a process-wide cell (mutable default object changed in place by an encode on another "
-              "thread):", bad)
+        if any(c.get("kind") == "input-object" for c in cl):
+            print("the object is a process-wide cell carrying per-document state (encodes of different documents that "
+                  "were given it leave different states on it):", bad)
+        else:
+            print("the variable is a process-wide cell (mutable default object changed in place by an encode on "
+                  "another thread):", bad)
     elif level == "sequential":
-        f = solo_fresh(case["spec"])
+        f = solo_fresh(case["spec"], case.get("specs"), case.get("thread"))
         print("fresh-process encode status:", f.get("status"))
-        tr = _baseline_worker(("traced", [case["spec"]]))[0]
+        tr = _baseline_worker(("traced", case.get("specs") or [case["spec"]]))[case.get("thread", 0) if
+                                                                                 case.get("specs") else 0]
         bad = not (tr["result"][0] == "ok" and tr["result"][1] == f.get("rtf") and tr["same_untraced"])
         print("in-process encode equals fresh-process encode:", not bad)
     elif level == "unit":
@@ -1313,7 +1846,21 @@ def replay(payload) -> int:
 def _solo_main():
     spec = json.loads(sys.stdin.read())
     with tempfile.TemporaryDirectory(prefix="rtfv_c15s_") as wd:
-        st = docgen.encode(spec, wd)
+        if "specs" in spec:
+            try:
+                with contextlib.redirect_stdout(io.StringIO()):
+                    doc = _build_all(spec["specs"], wd)[spec["i"]]
+                st = None
+            except Exception as e:  # noqa: BLE001
+                st = ("construct-error", docgen.classify_exc(e), str(e)[:300])
+            if st is None:
+                try:
+                    with contextlib.redirect_stdout(io.StringIO()):
+                        st = ("ok", docgen._encode_with_deadline(doc))
+                except Exception as e:  # noqa: BLE001
+                    st = ("encode-error", docgen.classify_exc(e), str(e)[:300])
+        else:
+            st = docgen.encode(spec, wd)
     if st[0] == "ok":
         print(json.dumps(dict(status="ok", rtf=st[1])))
     else:
